@@ -109,7 +109,7 @@ pub fn gen_knobs(rng: &mut Rng, has_panic: bool, managed: bool) -> Knobs {
         let p = *rng.pick(&[150u32, 400, 700, 1000]);
         let prefix = if managed { "managed." } else { "unmanaged." };
         for s in SITES {
-            if !s.starts_with(prefix) && !s.starts_with("sync.") {
+            if !s.starts_with(prefix) && !s.starts_with("sync.") && !(managed && *s == "harness.pred") {
                 continue;
             }
             if SITES_IN_LOCK.contains(s) && has_panic {
